@@ -56,6 +56,13 @@ Init ==
   /\ steps = 0 /\ trail = <<>>
 
 Log(a) == steps' = steps + 1 /\ trail' = Append(trail, a)
+\* Discovery (which updates the DiscoveryDB and sends a notification) and the event loop (which handles it: proxies,
+\* matched sets, status events) are different threads.  The handlers work on the data carried by the notification and
+\* notifications are handled in the order sent, so WHEN the event loop runs does not change any result: the model
+\* applies both halves in one action, and the replay draws for every event whether the event loop lags behind (the
+\* DiscoveryDB is then already ahead when the notification is handled).  A handler that consults the DiscoveryDB
+\* breaks exactly this independence.
+Defer == RandomElement(BOOLEAN)
 
 (* ----------------------------------------- the two local endpoints *)
 \* The local writer is matched with remote readers, the local reader with remote writers; both sides run the same
@@ -123,7 +130,7 @@ Spdp(p, l) ==
      /\ ext' = extN /\ att' = attN
      /\ SetSides(w, r)
      /\ AbsSpdp(p, l, Obs(w, r, proxN, extN, attN), FALSE)
-     /\ Log([a |-> "Spdp", p |-> p, lease |-> l])
+     /\ Log([a |-> "Spdp", p |-> p, lease |-> l, defer |-> Defer])
 
 \* DiscoveryDB::participant_is_alive
 Alive(p) ==
@@ -148,7 +155,7 @@ Cleanup ==
      /\ SetSides(w, r)
      /\ AbsCleanup(lost, Obs(w, r, proxN, extN, attN))
      /\ UNCHANGED <<pLife, pLease>>
-     /\ Log([a |-> "Cleanup"])
+     /\ Log([a |-> "Cleanup", defer |-> Defer])
 
 \* SPDP dispose: DiscoveryDB::remove_participant(p, active_disposal = true) + remote_participant_lost
 DisposeP(p) ==
@@ -160,7 +167,7 @@ DisposeP(p) ==
      /\ SetSides(w, r)
      /\ AbsDisposeP(p, Obs(w, r, proxN, extN, att))
      /\ UNCHANGED <<pLife, pLease, att>>
-     /\ Log([a |-> "DisposeP", p |-> p])
+     /\ Log([a |-> "DisposeP", p |-> p, defer |-> Defer])
 
 \* SEDP data: update_subscription / update_publication + remote_reader_discovered / remote_writer_discovered.
 \* The participant need not be known (its first SPDP announcement may have been lost): the endpoint is stored and
@@ -173,7 +180,7 @@ Announce(e) ==
         /\ SetSides(w, r)
         /\ AbsAnnounce(e, Obs(w, r, pProx, extN, att))
   /\ UNCHANGED <<pProx, pLife, pLease, att>>
-  /\ Log([a |-> "Announce", e |-> e])
+  /\ Log([a |-> "Announce", e |-> e, defer |-> Defer])
 
 \* SEDP dispose: remove_topic_reader / remove_topic_writer + remote_reader_lost / remote_writer_lost
 DisposeE(e) ==
@@ -184,7 +191,7 @@ DisposeE(e) ==
         /\ SetSides(w, r)
         /\ AbsDisposeE(e, Obs(w, r, pProx, extN, att))
   /\ UNCHANGED <<pProx, pLife, pLease, att>>
-  /\ Log([a |-> "DisposeE", e |-> e])
+  /\ Log([a |-> "DisposeE", e |-> e, defer |-> Defer])
 
 Next ==
   \/ \E dt \in Dts : Tick(dt)
